@@ -4,6 +4,7 @@ import (
 	"context"
 	"encoding/json"
 	"errors"
+	"reflect"
 
 	"github.com/invopop/gobl/pkg/here"
 	"github.com/invopop/gobl/uuid"
@@ -109,6 +110,9 @@ func (d *Object) ValidateWithContext(ctx context.Context) error {
 		validation.Field(&d.Schema, validation.Required),
 	)
 	if err != nil {
+		return err
+	}
+	if err := nullEntries(reflect.ValueOf(d.payload)); err != nil {
 		return err
 	}
 	// return any errors from the payload as if they were for the document
